@@ -239,14 +239,20 @@ func (pp *Params) ScalarsBits() []Named {
 	return s.out
 }
 
-// ScalarsClampSpace: all 2^16 values of (first byte, last byte) around a fixed
-// middle: decides clamping completely for that middle.
-func (pp *Params) ScalarsClampSpace() []Named {
+// ScalarsClampSpace: values of (first byte, last byte) around a fixed middle.
+// full: all 2^16 (decides clamping completely for that middle). Otherwise the
+// cross: every first byte x 8 last bytes, and 9 first bytes x every last byte.
+func (pp *Params) ScalarsClampSpace(full bool) []Named {
 	n := pp.C.Size
 	mid := verifmc.Shake("c06-clamp-mid", n)
 	out := make([]Named, 0, 1<<16)
+	inA := map[int]bool{0x00: true, 0x01: true, 0x02: true, 0x03: true, 0x04: true, 0x07: true, 0xf8: true, 0xfc: true, 0xff: true}
+	inB := map[int]bool{0x00: true, 0x3f: true, 0x40: true, 0x7f: true, 0x80: true, 0xbf: true, 0xc0: true, 0xff: true}
 	for a := 0; a < 256; a++ {
 		for b := 0; b < 256; b++ {
+			if !full && !inA[a] && !inB[b] {
+				continue
+			}
 			k := append([]byte{}, mid...)
 			k[0], k[n-1] = byte(a), byte(b)
 			out = append(out, Named{fmt.Sprintf("clamp[%02x..%02x]", a, b), k})
@@ -319,14 +325,11 @@ func (pp *Params) PeersCore(seed int64) []Named {
 			pp.withTop(&s, fmt.Sprintf("p+%d", j), addi(p, j))
 		}
 	} else {
-		// both ends of the non-canonical range p .. 2^448-1 (2^224+1 values) and
-		// every single-bit offset into it
+		// both ends of the non-canonical range p .. 2^448-1 (2^224+1 values);
+		// every single-bit offset into it is in PeersNonCanonicalBits
 		for j := int64(0); j < 32; j++ {
 			pp.withTop(&s, fmt.Sprintf("p+%d", j), addi(p, j))
 			pp.withTop(&s, fmt.Sprintf("2^448-1-%d", j), addi(pow2(448), -1-j))
-		}
-		for i := 0; i < 224; i++ {
-			pp.withTop(&s, fmt.Sprintf("p+2^%d", i), new(big.Int).Add(p, pow2(i)))
 		}
 	}
 	for i, l := range pp.LowOrder {
@@ -374,6 +377,19 @@ func (pp *Params) PeersSmall() []Named {
 	s.add("p+3", pp.le(addi(pp.C.P, 3)))
 	s.add("0", pp.le(big.NewInt(0)))
 	s.add("seedU", verifmc.Shake("c06-uA", pp.C.Size))
+	return s.out
+}
+
+// PeersNonCanonicalBits: X448 only, p+2^i for every i<224 (single-bit offsets
+// into the non-canonical range). X25519's non-canonical range is complete in
+// PeersCore.
+func (pp *Params) PeersNonCanonicalBits() []Named {
+	var s set
+	if pp.C.Bits == 448 {
+		for i := 0; i < 224; i++ {
+			s.add(fmt.Sprintf("p+2^%d", i), pp.le(new(big.Int).Add(pp.C.P, pow2(i))))
+		}
+	}
 	return s.out
 }
 
